@@ -99,6 +99,131 @@ def tok(secret, ip):
     return bytes.fromhex(G.token(secret, ip))
 
 
+def fld(x):
+    """case-line field -> bytes or None (absent / wrong type)"""
+    if x in ("~", "!"):
+        return None
+    return b"" if x == "-" else bytes.fromhex(x)
+
+
+def check_dgram(f, res, own, cur, prev, now, store, over, table):
+    """reply_shape on the implementation's answer to one datagram op
+       U,ip,rnd,t,y,q,id,target,ih,token,port"""
+    bad = []
+    ip = int(f[1])
+    t, y, q, nid, target, ih, tk = [fld(x) for x in f[3:10]]
+    port = f[10]
+    if y in (b"r", b"e"):
+        return bad
+    if any(w in res for w in ("UNDECODABLE", "NO-Y", "NO-V", "ODD", "BAD-BODY", "NO-BODY", "WRONG-SOURCE", "TO-OTHER", "EXTRA", "?")):
+        return [("reply-shape", "reply is not a well-formed DHT message from the server port to the source address: " + res[:120])]
+    if " + " in res:
+        return [("reply-count", "more than one reply to one datagram: " + res[:120])]
+    ownb = own.to_bytes(20, "big")
+    portv = int(port) if port not in ("~", "!") else None
+    wf = (t is not None and len(t) <= 20 and y == b"q" and nid is not None and len(nid) >= 20 and nid[:20] != ownb
+          and q in (b"ping", b"find_node", b"get_peers", b"announce_peer"))
+    if wf and q == b"find_node":
+        wf = target is not None and len(target) >= 20
+    if wf and q in (b"get_peers", b"announce_peer"):
+        wf = ih is not None and len(ih) >= 20
+    if wf and q == b"announce_peer":
+        if tk is not None and portv is not None and not (1 <= portv <= 65535):
+            # out-of-range port: must be refused (error) or dropped, never accepted
+            if re.match(r"r t=", res):
+                p16 = portv % 65536
+                if p16 and ih is not None:
+                    store.setdefault(int.from_bytes(ih[:20], "big"), {})[ip] = (p16, now)
+                return [("announce-port-out-of-range", "announce_peer with port %d accepted (stored as port %d)" % (portv, p16))]
+            return bad
+        wf = tk is not None and portv is not None
+    m = re.match(r"r t=(\S+) id=(\S+) tok=(\S+) n=(\S+) v=(\S+)$", res)
+    e = re.match(r"e t=(\S+) (\d+) (\S+)$", res)
+    if not wf:
+        # malformed: an error reply or nothing, and no state change that matters to the property
+        if m and not (q == b"announce_peer" or True):
+            pass
+        if res != "none" and not e and not m:
+            bad.append(("reply-shape", "unparsable reply: " + res[:120]))
+        if m and q == b"announce_peer":
+            bad.append(("malformed-accepted", "malformed announce_peer answered with a normal reply"))
+        return bad
+    # ---- well-formed query: exactly one reply, t echoed
+    if res == "none":
+        return [("reply-count", "no reply to a well-formed %s query" % q.decode())]
+    tt = (t.hex() or "-")
+    if (m and m.group(1) != tt) or (e and e.group(1) != tt):
+        bad.append(("reply-t", "transaction id not echoed"))
+    ihv = int.from_bytes(ih[:20], "big") if ih else None
+    if q == b"announce_peer":
+        want = len(tk) == 8 and tk in (tok(cur, ip), tok(prev, ip))
+        if want != bool(m):
+            bad.append(("token-window", "announce_peer accepted=%s but token issued-to-this-ip-within-two-rotations=%s" % (bool(m), want)))
+        if m:
+            p16 = portv
+            if p16:
+                d = store.setdefault(ihv, {})
+                d[ip] = (p16, now)
+                if len(d) > 32:
+                    over.add(ihv)
+        elif not (e and e.group(2) == "203"):
+            bad.append(("reply-shape", "refused announce_peer without a 203 error"))
+        if m and (m.group(3), m.group(4), m.group(5)) != ("~", "~", "~"):
+            bad.append(("reply-body", "announce_peer reply carries a body"))
+        return bad
+    if e:
+        # the only legitimate error for a well-formed query: nothing to return (201)
+        if not (e.group(2) == "201" and q in (b"find_node", b"get_peers")):
+            bad.append(("reply-shape", "well-formed %s answered with error %s %s" % (q.decode(), e.group(2), e.group(3))))
+        return bad
+    if not m:
+        return [("reply-shape", "unparsable reply: " + res[:120])]
+    if m.group(2) != ownb.hex():
+        bad.append(("reply-id", "r.id is not the node's own id"))
+    tokr, nodes, vals = m.group(3), m.group(4), m.group(5)
+    if q == b"ping" and (tokr, nodes, vals) != ("~", "~", "~"):
+        bad.append(("reply-body", "ping reply carries a body"))
+    if q == b"find_node" and (tokr != "~" or vals != "~" or nodes == "~"):
+        bad.append(("reply-body", "find_node reply must carry nodes only"))
+    if q == b"get_peers":
+        if tokr == "~" or bytes.fromhex(tokr) != tok(cur, ip):
+            bad.append(("token-issue", "get_peers token is not H(current secret, source ip)[0..8]"))
+        if (nodes == "~") == (vals == "~"):
+            bad.append(("reply-body", "get_peers reply must carry exactly one of nodes / values"))
+    if nodes != "~":
+        nb = bytes.fromhex(nodes) if nodes != "-" else b""
+        if len(nb) == 0 or len(nb) % 26 or len(nb) > 8 * 26:
+            bad.append(("nodes-shape", "nodes is not 1..8 whole 26-byte entries"))
+        elif table is not None:
+            # a dump immediately precedes this query: every entry must be a node of the table, and a
+            # non-bad one where the bucket's cache was empty (built for this reply)
+            alln = {(n["id"], n["ip"], n["port"]): n for b in table["buckets"] for n in b["nodes"]}
+            fresh = all(b["cache"] == 0 for b in table["buckets"])
+            for i in range(0, len(nb), 26):
+                key = (int.from_bytes(nb[i:i + 20], "big"), int.from_bytes(nb[i + 20:i + 24], "big"), int.from_bytes(nb[i + 24:i + 26], "big"))
+                if fresh and (key not in alln or alln[key]["inact"] >= 5):
+                    bad.append(("nodes-not-live", "nodes entry is not a non-bad node of the routing table"))
+                    break
+    if vals != "~":
+        vl = [bytes.fromhex(x) for x in vals.split(",")] if vals != "-" else []
+        if not vl or any(len(v) != 6 for v in vl):
+            bad.append(("values-shape", "values is not a non-empty list of 6-byte strings"))
+        exp = store.get(ihv, {})
+        okvals = {i.to_bytes(4, "big") + pt.to_bytes(2, "big") for i, (pt, _) in exp.items()}
+        if ihv not in over:
+            for v in okvals:
+                if v not in vl:
+                    swapped = v[:4] + v[5:6] + v[4:5]
+                    bad.append(("announce-port-host-order" if swapped in vl else "announce-lost",
+                                "accepted announce (ip, port) not returned by get_peers in network byte order"))
+                    break
+            for v in vl:
+                if v not in okvals and (v[:4] + v[5:6] + v[4:5]) not in okvals:
+                    bad.append(("values-foreign", "get_peers returned a value nobody announced for this info-hash"))
+                    break
+    return bad
+
+
 def oracle(case, line):
     """Property C15 (unit level) evaluated on ONE implementation output line."""
     if line.startswith("CRASH") or "ERR:" in line or "BADCASE" in line or "BADOP" in line:
@@ -114,9 +239,12 @@ def oracle(case, line):
     last = None
     store = {}      # ih -> {ip: (port16, t)}   accepted announces (oracle's own bookkeeping)
     over = set()    # ih whose store ever exceeded max_peers (oracle then only checks membership)
+    prevk = None
+    kk = None
     for o, p in list(zip(ops, parts)) + [("END", parts[-1])]:
         f = o.split(",")
-        k = f[0]
+        prevk = kk
+        k = kk = f[0]
         if k == "END":
             res = p[4:]
         else:
@@ -148,10 +276,13 @@ def oracle(case, line):
             ip = int(f[2])
             want = len(tk) == 8 and tk in (tok(cur, ip), tok(prev, ip))
             got = res == "1" if k == "K" else res == "ok"
-            if want != got:
+            inrange = k == "K" or 1 <= int(f[3]) <= 65535
+            if want != got and (inrange or got or not want):
                 bad.append(("token-window", "token accepted=%s but issued-to-this-ip-within-two-rotations=%s" % (got, want)))
             if k == "A" and got:
                 port = int(f[3]) % 65536
+                if not inrange:
+                    bad.append(("announce-port-out-of-range", "announce_peer with port %s accepted (stored as port %d)" % (f[3], port)))
                 if port:
                     d = store.setdefault(int(f[1], 16), {})
                     d[ip] = (port, now)
@@ -187,6 +318,11 @@ def oracle(case, line):
             nm = re.search(r" n=(\S+)", res)
             if nm and last is not None:
                 pass
+        elif k == "X":
+            if res != "none":
+                bad.append(("reply-to-garbage", "a datagram that is not a bencode dictionary was answered: " + res[:80]))
+        elif k == "U":
+            bad += check_dgram(f, res, own, cur, prev, now, store, over, last if prevk == "D" else None)
         elif k == "F":
             if res.startswith("n=") and (len(res) - 2) % 52 != 0:
                 bad.append(("nodes-shape", "nodes string is not a multiple of 26 bytes"))
